@@ -116,10 +116,13 @@ add(Contract(
             "fresh_since(exc) and fresh_since(exc.fields_stack)",
         ],
     },
-    loops={0: LoopSpec(["0 <= it", "offset >= 0", "k.has_ipp"],
+    loops={0: LoopSpec(["0 <= it", "offset >= 0", "k.has_ipp and k.ipp == g_start"],
                        ghost={'g_off': 'offset', 'g_idx': 'it'}),
            1: LoopSpec(["0 <= it"], ghost={'g_in_sync': 'True'})},
-    ghost_init={'g_in_sync': 'False'}, ghost_kinds={'g_idx': 'int', 'g_off': 'int', 'g_in_sync': 'bool'},
+    ghost_init={'g_in_sync': 'False', 'g_start': 'offset'},
+    ghost_kinds={'g_idx': 'int', 'g_off': 'int', 'g_in_sync': 'bool', 'g_start': 'int'},
+    # every field parses with 'innermost-pkt-pos' = the offset where THIS packet begins (relative positions, C10)
+    call_asserts={'FIELD.unpack': ["arg_k.has_ipp and arg_k.ipp == g_start"]},
     # K12a: the descriptor sync hooks run outside the try block, so an exception of a hook escapes raw
     known={'no OtherException* escapes': dict(id='K12a', case="g_in_sync")},
     modifies=['slot(self, *)'], allocates=True, returns='int'))
@@ -144,14 +147,15 @@ add(Contract(
     },
     loops={0: LoopSpec(["0 <= it", "unchanged(fragments)", "g_sync_calls == it"], ghost={'g_in_sync': 'True'},
                        ghost_havoc=['g_sync_calls']),
-           1: LoopSpec(["0 <= it", "WF(fragments)", "fragments.current_offset >= 0", "k.has_ipp",
+           1: LoopSpec(["0 <= it", "WF(fragments)", "fragments.current_offset >= 0", "k.has_ipp and k.ipp == g_start",
                         "g_sync_calls == sync_len_pack(class_of(self))"],
                        ghost={'g_cur': 'fragments.current_offset', 'g_idx': 'it', 'g_in_sync': 'False'})},
-    ghost_init={'g_in_sync': 'False', 'g_sync_calls': '0'},
-    ghost_kinds={'g_idx': 'int', 'g_cur': 'int', 'g_in_sync': 'bool', 'g_sync_calls': 'int'},
-    # every descriptor sync hook has run before the first field is serialised (C17)
+    ghost_init={'g_in_sync': 'False', 'g_sync_calls': '0', 'g_start': 'fragments.current_offset'},
+    ghost_kinds={'g_idx': 'int', 'g_cur': 'int', 'g_in_sync': 'bool', 'g_sync_calls': 'int', 'g_start': 'int'},
+    # every descriptor sync hook has run before the first field is serialised (C17); every field is serialised with
+    # 'innermost-pkt-pos' = the position where THIS packet begins (relative positions, C10)
     call_effects={'SYNC.pack': {'g_sync_calls': 'g_sync_calls + 1'}},
-    call_asserts={'FIELD.pack': ["g_sync_calls == sync_len_pack(class_of(self))"]},
+    call_asserts={'FIELD.pack': ["g_sync_calls == sync_len_pack(class_of(self))", "arg_k.has_ipp and arg_k.ipp == g_start"]},
     known={
         'no OtherException* escapes': dict(id='K12a', case="g_in_sync"),
         # K12b: a field whose pack moves the cursor before failing (a repeated field failing at its
